@@ -211,7 +211,9 @@ def run_spec(spec, acc, all_orders=True):
         if any(k not in gen_dag.ROOTS for k in kw):
             acc.stratum("calls-with-supplied-intermediate")
         for sig, text in check_call(spec, pipe_for, out, kw, listed, orders):
-            acc.violation(sig, {"spec": spec, "out": out, "kw": kw, "listed": listed, "all_orders": all_orders}, text)
+            # the artefact replays EVERY call of this pipeline in order on the same Pipeline objects (a defect may depend on
+            # earlier requests, e.g. a stale internal cache entry); "focus" names the call that showed it
+            acc.violation(sig, {"spec": spec, "focus": {"out": out, "kw": kw, "listed": listed}, "all_orders": all_orders}, text)
     acc.sample({"spec": spec, "out": gen_dag.all_outputs(spec)[-1]})
 
 
@@ -267,13 +269,6 @@ def replay(art):
         except Exception as e:  # noqa: BLE001
             return [findings.exc_sig(e, entry="construct", deco=spec.get("deco"))]
         return []
-    cache = {}
-
-    def pipe_for(order):
-        if order not in cache:
-            cache[order] = gen_dag.build(spec, order=order)
-        return cache[order]
-
-    out = art["out"]
-    out = tuple(out) if isinstance(out, list) else out
-    return [s for s, _ in check_call(spec, pipe_for, out, art["kw"], art.get("listed", True), orders_for(spec, art.get("all_orders", True)))]
+    acc = Acc()
+    run_spec(spec, acc, all_orders=art.get("all_orders", True))
+    return [g["sig"] for g in acc.violations.values()]
